@@ -1,0 +1,13 @@
+//go:build verif && verif_h2c
+
+package h2c
+
+// Verification hooks (build tags `verif` and `verif_h2c`).
+// Expose-only; never called by library code.
+
+import "crypto"
+
+// VerifExpandMessageXMD exposes expandMessageXMD.
+func VerifExpandMessageXMD(out []byte, h crypto.Hash, dst, msg []byte) error {
+	return expandMessageXMD(out, h, dst, msg)
+}
